@@ -101,6 +101,17 @@ pub fn judge(x: &Vec<u8>, st: &mut Stats) -> Verdict {
                 views(raw, &hf, "FromStr")?;
             }
         }
+        // copies: a clone, and clone_from onto owned headers of each kind (another protocol keyword, a longer and a shorter text)
+        views(raw, &h.clone(), "clone")?;
+        for (name, text, addr) in [
+            ("clone_from-onto-tcp4", "PROXY TCP4 127.0.1.2 192.168.1.101 80 443\r\n", v1::Addresses::new_tcp4([127, 0, 1, 2], [192, 168, 1, 101], 80, 443)),
+            ("clone_from-onto-tcp6", "PROXY TCP6 1234:5678:90ab:cdef:fedc:ba09:8765:4321 4321:8765:ba09:fedc:cdef:90ab:5678:1234 443 65535\r\n", v1::Addresses::new_tcp6([0x1234u16, 0x5678, 0x90ab, 0xcdef, 0xfedc, 0xba09, 0x8765, 0x4321], [0x4321, 0x8765, 0xba09, 0xfedc, 0xcdef, 0x90ab, 0x5678, 0x1234], 443, 65535)),
+            ("clone_from-onto-unknown", "PROXY UNKNOWN\r\n", v1::Addresses::Unknown),
+        ] {
+            let mut slot: v1::Header<'_> = v1::Header::new(text, addr).to_owned();
+            slot.clone_from(h);
+            views(raw, &slot, name)?;
+        }
         Ok(())
     }) {
         Ok(v) => v,
@@ -139,8 +150,9 @@ pub fn run(r: &mut Runner) -> &'static str {
     // the same check over chains of related inputs judged back to back on one thread (history independence)
     let n = r.n(30000, 800000);
     r.random("c15.chains", n, 260, &|t| crate::gen::gen_chain(t, &gen_case), &|c: &crate::engine::Chain, st: &mut Stats| {
+        // every member is parsed from this thread's reusable read buffer (same address, new contents)
         for x in &c.0 {
-            judge(x, st)?;
+            crate::engine::in_arena(x, |v| judge(v, st))?;
         }
         Ok(())
     });
